@@ -14,7 +14,9 @@ import (
 const vSA = `
 interface Node { id: ID! }
 type Human implements Node { id: ID! name(upper: Boolean): String! friends: [Human!]! best: Human age: Int }
-type Query { node(id: ID!): Node getHumans: [Human!]! me: Human }
+input TagIn { label: String weight: Int }
+input HumanIn { name: String tags: [TagIn!] }
+type Query { node(id: ID!): Node getHumans: [Human!]! me: Human findHumans(filter: [HumanIn!], grid: [[Int]]): [Human!]! }
 type Mutation { saveHuman(name: String!): Human! }
 `
 const vSB = `
@@ -66,6 +68,7 @@ func vReadmeWorld(k int) *vWorld {
 	w.ents["b1"] = vEnt{"__typename": "Badge", "id": "b1", "code": verifInt("b1_code", 0, 9)}
 	w.roots["Query.getHumans"] = vLazyRefs{"getHumans"}
 	w.roots["Query.me"] = vLazyRef{"me"}
+	w.roots["Query.findHumans"] = []vRef{{"Human", "h1"}}
 	w.roots["Query.getAnimals"] = []vRef{{"Animal", "a1"}}
 	w.roots["Mutation.saveHuman"] = vRef{"Human", "h2"}
 	w.roots["Mutation.savePhone"] = vRef{"Human", "h1"}
@@ -109,6 +112,10 @@ func vReadmeOps() []vOp {
 		{q: `query($s: Boolean!) { me { name phone @skip(if: $s) } }`, known: "directive-var", vars: func() map[string]interface{} { return map[string]interface{}{"s": false} }},
 		{q: `{ node(id: "h1") { id } }`, noNode: true, known: "node-without-fragment"},
 		{q: `{ __typename me { phone } }`, known: "root-typename"},
+		// client variables inside object and list literals that are themselves list elements
+		{q: `query($n: String, $l: String, $x: Int) { findHumans(filter: [{name: $n, tags: [{label: $l, weight: $x}]}], grid: [[1, $x], [$x]]) { name phone } }`, vars: func() map[string]interface{} {
+			return map[string]interface{}{"n": "nn", "l": "ll", "x": verifInt("var_x", 0, 9)}
+		}},
 		{q: `query($c: Int = 4) { me { phone(cc: $c) } }`, vars: func() map[string]interface{} { return map[string]interface{}{"c": verifInt("var_c", 0, 9)} }},
 	}
 }
@@ -244,9 +251,9 @@ func VerifPipeline() {
 
 const vSC1 = `
 interface Node { id: ID! }
-interface Pet { id: ID! name: String! }
-type Cat implements Node & Pet { id: ID! name: String! lives: Int }
-type Dog implements Node & Pet { id: ID! name: String! bark: String }
+interface Pet { id: ID! name: String! nick(short: Boolean): String }
+type Cat implements Node & Pet { id: ID! name: String! nick(short: Boolean): String lives: Int }
+type Dog implements Node & Pet { id: ID! name: String! nick(short: Boolean): String bark: String }
 union Thing = Cat | Dog
 type Query { node(id: ID!): Node pets: [Pet!]! things: [Thing!]! ping: String }
 type Mutation { ping: String }
@@ -301,6 +308,8 @@ func vAbstractOps() []vOp {
 		{q: `{ ping pong }`},
 		{q: `{ things { ... on Cat { id } } }`},
 		{q: `mutation { ping }`},
+		// one field twice under different aliases, on an interface whose implementations span two services
+		{q: `{ pets { ... on Cat { toy s: nick(short: true) l: nick(short: false) } ... on Dog { bone s: nick(short: true) } } }`},
 		{q: `{ pets { name ... on Cat { toy lives } } }`, known: "abs-interface-field-plus-fragment"},
 		{q: `{ pets { id ... on Cat { toy } } }`, known: "abs-id-next-to-fragment"},
 		{q: `{ things { __typename ... on Cat { toy } } }`, known: "abs-typename-next-to-union-fragment"},
